@@ -271,7 +271,8 @@ def load_hdf5(path, meta_only=False):
                     parms.loads(val)
                     val = parms
                 elif key == "preprocessing":
-                    val = val.split(",")
+                    # (an empty list is stored as an empty string)
+                    val = val.split(",") if val else []
                 elif key in ["preprocessing_options", "method_kws"]:
                     val = json.loads(val)
                 elif key == "range_x":
@@ -382,7 +383,9 @@ def save_hdf5(h5path, indent, user_rate, user_name, user_comment, h5mode="a"):
                     elif key in ["preprocessing_options", "method_kws"]:
                         val = json.dumps(val)
                     elif key == "range_x":
-                        val = str(val)
+                        # (convert numpy scalars, whose representation
+                        # cannot be parsed by `load_hdf5`)
+                        val = str([float(vv) for vv in val])
                     out.attrs["fit {}".format(key)] = val
 
                 for col in ["fit", "fit range", "force", "fit residuals",
